@@ -15,8 +15,12 @@ def _build(m):
     vm.add_real_var("t1", value=1.0)
     vm.add_real_var("t2", value=1.0)
     vm.add_complex_var("c", polar=True)
+    vm.add_complex_var("d", polar=True)
     vm.set_fix("f")
+    vm.set_fix("di")
     vm.set_same(["t1", "t2"])
+    vm.variables["dr"].assign(g("v_dr"))
+    vm.variables["di"].assign(2 * math.atan(g("u_v_dphi", 0.2)))
     vm.variables["m"].assign(g("v_m"))
     vm.variables["f"].assign(g("v_f"))
     vm.variables["t1"].assign(g("v_t"))
@@ -48,7 +52,7 @@ def _apply(vm, name, k, m):
     if name == "roundtrip":
         vm.set_all(vm.get_all_dic()); return set()
     if name == "refresh":
-        vm.refresh_vars(); return set(vm.trainable_vars) | {"t1", "t2", "cr", "ci"}
+        vm.refresh_vars(); return set(vm.trainable_vars) | {"t1", "t2"}
     if name == "rp2xy":
         vm.rp2xy("c"); return set()
     if name == "xy2rp":
@@ -101,7 +105,10 @@ def replay(p):
                 za = _z(vm)
                 if "f" not in assigned and abs(after["f"] - before["f"]) > 1e-9:
                     bad.append("fixed changed at %s" % nm)
-                for n in ("m", "t1"):
+                coord = nm in ("rp2xy", "xy2rp", "std_polar", "standard_complex", "trans_cart", "trans_polar")
+                for n in ("m", "t1", "di", "dr", "cr", "ci"):
+                    if coord and n in ("di", "dr", "cr", "ci"):
+                        continue
                     if n not in assigned and abs(after[n] - before[n]) > 1e-9:
                         bad.append("%s changed at %s" % (n, nm))
                 if "cr" not in assigned and abs(za - zb) > 1e-7 * (1 + abs(zb)):
